@@ -215,6 +215,63 @@ def replay_terms(job):
 
 
 # ---------------------------------------------------------------------------------------------
+# fail-over traces with equal priorities (V, classic trace specification ServiceFailoverTrace.tla)
+# ---------------------------------------------------------------------------------------------
+def tie_traces(job):
+    """Worker: random response assignments with tied priorities; the order the implementation picks is not logged."""
+    import random
+    seed, network, n = job
+    rng = random.Random(seed)
+    from bitcoinlib.services.services import Service, ServiceError
+    vfake = _setup_fakes(network)
+    txs = _mk_txs(network)
+    _values(vfake, network, txs)
+    vfake.SCRIPT.clear()
+    srv = Service(network=network, providers=['vfake'], max_providers=1)
+    kinds = ['ok', 'ok', 'raise', 'raiseattr', 'false', 'nomethod', 'needskey', 'nourl']
+    out = []
+    for _ in range(n):
+        resp = {p: rng.choice(kinds) for p in PROVS}
+        prio = {p: rng.choice([0, 1, 1, 2]) for p in PROVS}
+        mp, me = rng.choice([1, 1, 2, 3]), rng.choice([1, 2, 3, 4])
+        m = rng.choice(['getrawtransaction', 'sendrawtransaction', 'mempool', 'getinfo', 'getrawblock'])
+        vfake.SCRIPT.clear()
+        for p in PROVS:
+            cfg = srv.providers[p]
+            vfake.SCRIPT[p] = resp[p]
+            cfg['url'] = '' if resp[p] == 'nourl' else 'fake://' + p
+            cfg['api_key'] = 'api-key-needed' if resp[p] == 'needskey' else ''
+            cfg['client_class'] = 'FakeClientNoMethods' if resp[p] == 'nomethod' else 'FakeClient'
+            cfg['priority'] = prio[p]
+        srv.max_providers, srv.max_errors = mp, me
+        del vfake.LOG[:]
+        outcome, retval = 'none', 'none'
+        try:
+            if m == 'getrawtransaction':
+                got = srv.getrawtransaction(txs[0].txid)
+            elif m == 'sendrawtransaction':
+                got = srv.sendrawtransaction(txs[0].raw_hex())
+            elif m == 'mempool':
+                got = srv.mempool('')
+            elif m == 'getinfo':
+                got = srv.getinfo()
+            else:
+                got = srv.getrawblock(1000)
+            if got is False:
+                outcome = 'false'
+            else:
+                outcome = 'return'
+                retval = next((p for p in PROVS if vfake.VALUES[(p, m)] == got), 'nobody')
+        except ServiceError:
+            outcome = 'raise'
+        ev = [{'k': x[0], 'p': x[1]} for x in vfake.LOG if x[2] in (m, '')]
+        out.append({'resp': resp, 'prio': prio, 'mp': mp, 'me': me, 'ev': ev, 'method': m,
+                    'fin': {'outcome': outcome, 'retval': retval, 'results': list(srv.results.keys()),
+                            'errors': sorted(srv.errors.keys()), 'rc': srv.resultcount}})
+    return out
+
+
+# ---------------------------------------------------------------------------------------------
 # cache histories (V)
 # ---------------------------------------------------------------------------------------------
 NB = 5          # transactions in the block (ServiceCacheEval.cfg: NBlock = 5)
@@ -406,6 +463,33 @@ def run(replay=None):
                 b['method'], b['problems'][0].split(':')[0], b['network'], b['method'], json.dumps(b['term'], sort_keys=True),
                 '; '.join(b['problems'])),
                          {'term_full': full, 'method': b['method'], 'network': b['network'], 'obs': b['obs']})
+    # (V) traces with tied priorities against the classic trace specification
+    if not replay:
+        import tempfile
+        tjobs = [(common.seed() + 7000 + i, NETWORKS[i % 2], 250 if thorough else 40) for i in range(16)]
+        ttraces = [t for part in common.pmap(tie_traces, tjobs, config_ini=NOCACHE_INI) for t in part]
+        tf = os.path.join(tempfile.mkdtemp(prefix='tie_', dir=common.scratch()), 'traces.ndjson')
+        with open(tf, 'w') as f:
+            for t in ttraces:
+                f.write(json.dumps({k: t[k] for k in ('resp', 'prio', 'mp', 'me', 'ev', 'fin')}) + '\n')
+        rc, out = common.run_tlc('ServiceFailoverTrace', 'ServiceFailoverTrace.cfg', env={'TRACE_FILE': tf}, workers=1, timeout=1800)
+        if rc != 0 or 'Model checking completed' not in out:
+            raise common.MachineryError('trace validation run failed:\n' + out[-3000:])
+        st = common.tlc_stats(out)
+        st.update({'module': 'ServiceFailoverTrace', 'cfg': 'ServiceFailoverTrace.cfg'})
+        ck.model(st)
+        accepted = {a['tid'] for a in common.tlc_printed(out, 'ACCEPT')}
+        for i, t in enumerate(ttraces):
+            ck.traces += 1
+            ck.case(('tie', tuple(sorted(t['resp'].values())), tuple(sorted(t['prio'].values())), t['fin']['outcome']))
+            if i + 1 not in accepted:
+                ck.violation(None, 'clause tie-trace-rejected; %s on a Service with responses %s, priorities %s, max_providers=%d, max_errors=%d: '
+                             'logged %s, ended %s - no behaviour of ServiceFailover with an order consistent with the priorities explains it'
+                             % (t['method'], t['resp'], t['prio'], t['mp'], t['me'], [(e['k'], e['p']) for e in t['ev']], t['fin']),
+                             {'tie': {k: t[k] for k in ('resp', 'prio', 'mp', 'me', 'method')}})
+        ck.notes['tie_traces'] = len(ttraces)
+        if not accepted:
+            raise common.MachineryError('no tie trace was accepted: trace validation is vacuous')
     # (V) cache histories validated by TLC against ServiceCache.tla
     ck.model(common.model_check('MC_ServiceCache', 'MC_ServiceCache_thorough.cfg' if thorough else 'MC_ServiceCache.cfg',
                                 expect_actions=['Next']))
